@@ -267,6 +267,23 @@ theorem readahead_bytes_refine_flat (F : File) (hwf : WF F) (r0 : Reader) (h0 : 
   exact ⟨this, by rw [this]; exact read_refines_flat F hwf r0 h0 ops hv⟩
 
 open Hts.Model Hts.Model.Bgzf Hts.Model.ReadAhead Hts.Spec.Flat in
+/-- The same for an ADAPTIVE client (`Client`: each operation chosen from the outputs and reader states seen so far,
+as `bam.Reader`, `bam.Iterator` and `index.ChunkReader` do): every execution over the fault-free protocol returns
+what the client gets from the sequential reader, and leaves the same reader state. -/
+theorem readahead_client_refines_sequential {α : Type} (F : File) (hwf : WF F) (r0 : Reader)
+    (h0 : Reader.new F = .ok r0) (c : Client α) (rd : Nat) (script : List ReadAhead.Op)
+    (hn : ReadAhead.Op.nexts ∉ script) (res : α × Reader) (t : ReadAhead.State)
+    (h : Over ⟨rd, chainOf F, script, false⟩ F (c.prog r0)
+      (ReadAhead.init ⟨rd, chainOf F, script, false⟩) res t) :
+    res = c.run r0 := by
+  have ht := tracks_new hwf h0
+  have := over_eq_seq (cfg := ⟨rd, chainOf F, script, false⟩) rfl rfl h .init hn
+  rw [this]
+  have hi : (ReadAhead.init ⟨rd, chainOf F, script, false⟩).cur = blkOf r0.cur := by rw [ht.2]; rfl
+  rw [hi]
+  exact client_seq hwf c r0 ht.1
+
+open Hts.Model Hts.Model.Bgzf Hts.Model.ReadAhead Hts.Spec.Flat in
 /-- **Such executions exist and run to the end.**  For every rd ≥ 2: with the calls the history makes as the
 consumer's script (`Prog.calls`; followed by any further operations, e.g. `close`), the history runs over the
 protocol to its last operation — every call returns (dead-lock freedom and the global measure; no fairness
